@@ -6,7 +6,7 @@
 (* and direct transfers aimed at the escrow account.                         *)
 EXTENDS Genesis
 
-CONSTANTS MaxHeight, MaxTx, MaxFail, MaxStreams, Fees, DTs, FailingGov
+CONSTANTS MaxHeight, MaxTx, MaxFail, MaxStreams, Fees, DTs, FailingGov, Pre
 VARIABLES st, phase, hist, nTx, nFail
 vars == <<st, phase, hist, nTx, nFail>>
 
@@ -20,7 +20,10 @@ Gen == [accts |-> Accts,
         bcn |-> [feeReg |-> 4, feeRec |-> 1, feePur |-> 1, denom |-> "nund", def |-> 2, max |-> 3, startId |-> 1],
         str |-> [feeNum |-> 1, feeDen |-> 10]]
 
-Init == st = StateOf(Gen) /\ phase = "idle" /\ hist = <<[a |-> "InitChain", g |-> Gen]>> /\ nTx = 0 /\ nFail = 0 /\ GoalRegsInit
+\* Pre: a scripted prefix (events) executed before the exploration starts; it ends inside an open block
+Init == /\ st = FoldL(LAMBDA ev, s : Step(s, ev).st, StateOf(Gen), Pre)
+        /\ phase = (IF Pre = <<>> THEN "idle" ELSE "block")
+        /\ hist = <<[a |-> "InitChain", g |-> Gen]>> \o Pre /\ nTx = 0 /\ nFail = 0 /\ GoalRegsInit
 
 Pairs == { <<r, s>> \in AcctSet \X AcctSet : r # s /\ r \in {"A2", "A3"} /\ s \in {"A1", "A2"} }
 SCreate(r, s, dep, den, rate) == [t |-> "SCreate", sender |-> s, receiver |-> r, dep |-> dep, denom |-> den, rate |-> rate]
@@ -71,6 +74,14 @@ FeesFull == FeesQuick \o << [feeNum |-> 1, feeDen |-> 1], [feeNum |-> 1, feeDen 
 DTsQuick == {0, 500, 30000, 59600, 200000}
 DTsFull == {0, 500, 1000, 30000, 59600, 60000, 200000}
 DTsGhost == {2000}
+DTsDeep == {0, 30000}
+NoPre == <<>>
+\* a stream that ran dry and was claimed in full, a second one still live; then an open block half a minute later
+PreDrained == << [a |-> "BeginBlock", dt |-> 1000],
+                 Tx(<<SCreate("A2", "A1", 120, "nund", 2)>>), Tx(<<SCreate("A3", "A2", 250, "nund", 1)>>),
+                 EndEv, ComEv, [a |-> "BeginBlock", dt |-> 70000],
+                 Tx(<<[t |-> "SClaim", sender |-> "A1", receiver |-> "A2"]>>),
+                 EndEv, ComEv, [a |-> "BeginBlock", dt |-> 30000] >>
 
 Inv == C10State(st) /\ C11State(st) /\ Conserved(st) /\ NotStranded(st) /\ NotHalted(st) /\ C02StateModel(st) /\ StoredParamsValid(st) /\ C15State(st)
 StepProps == [][ hist' # hist =>
